@@ -1,6 +1,6 @@
 (* C07 — the monitor accepts every trace of the model (coupling invariant). *)
 From Coq Require Import List Arith ZArith Bool Lia.
-From Verif Require Import lib.Wire c07.Model c07.Spec c07.Proofs.
+From Verif Require Import lib.Wire c07.Model c07.Spec c07.Proofs c07.Proofs_park.
 Import ListNotations.
 Local Open Scope Z_scope.
 
@@ -16,6 +16,7 @@ Record coupled (U : Z) (hs : bool) (s : st) (m : mon) : Prop := mkCoupled {
 Definition wf_op (U : Z) (o : op) : Prop :=
   match o with
   | OBatch opens => forall q, In q (reqs_of opens) -> in_range U q
+  | OPark popens => forall q, In q (reqs_of (park_view popens)) -> in_range U q
   | _ => True
   end.
 
@@ -49,7 +50,7 @@ Section GenericTrace.
                coupled U hs (fst (step ms_select ms_lazy U c s o)) m'.
   Proof.
     intros U hs c s m o Hwf Hc Hop. destruct Hc as [Hl Hnd Hn Hk Hs Hh Hns].
-    destruct o as [name | name acc | name | k | opens | slot how | slot side q | dir wt]; cbn [step mon_step fst snd].
+    destruct o as [name | name acc | name | k | opens | slot how | slot side q | dir wt | popens]; cbn [step mon_step fst snd].
     - destruct (add_handler_live (tbl s) name [name] (nreg s) Hnd) as [E ND].
       eexists. split; [reflexivity|].
       constructor; cbn; [rewrite Hl, Hn; symmetry; exact E | exact ND | lia | exact Hk | exact Hs | exact Hh | exact Hns].
@@ -107,6 +108,37 @@ Section GenericTrace.
     - eexists. split; [reflexivity|].
       constructor; cbn; [exact Hl | exact Hnd | exact Hn | reflexivity | intros Hhs; rewrite Hhs; reflexivity
                         | reflexivity | exact Hns].
+    - (* parked opens: the waiter list wakes exactly the opens whose context did not end
+         (park_batch_view); then as a batch on the refreshed knowledge *)
+      rewrite park_batch_view. cbn [wf_op] in Hop.
+      destruct (run_batch ms_select ms_lazy c (tbl s) (mux_protocols (tbl s))
+                  (mkB (outD s) (inL s) [] (held s) (nslot s)) (park_view popens)) as [b rs] eqn:E.
+      cbn [fst snd mon_step].
+      pose proof (run_batch_outcomes ms_select ms_lazy ms_select_some ms_lazy_spec _ _ _ _ _ _ _ E) as Ho.
+      assert (Hb : batch_ok U hs c (mkM (m_live m) (m_nreg m) (mux_protocols (tbl s)) (m_sc m) (m_held m) (m_nslot m))
+                            (park_view popens) rs (flat_map o_un rs)
+                            (scope_vec U (b_out b) (b_in b)) = true).
+      { unfold batch_ok. cbv zeta. fold (reqs_of (park_view popens)). cbn [m_live m_kn m_sc].
+        pose proof (outcomes_length _ _ _ _ _ _ _ Ho) as Hlen.
+        pose proof (outcomes_un _ _ _ _ _ _ _ Ho) as [Hu1 Hu2].
+        pose proof (outcomes_counts _ _ _ _ _ _ _ Ho) as Hcnt. cbn [b_out b_in] in Hcnt.
+        rewrite Hl.
+        repeat (apply andb_true_iff; split).
+        - apply Z.eqb_eq. rewrite Hlen. reflexivity.
+        - eapply (run_batch_live ms_select ms_lazy ms_select_some ms_select_none ms_lazy_spec); eauto;
+            intros p; lia.
+        - eapply outcomes_open_ok; eauto. intros p. lia.
+        - exact Hu1.
+        - apply Z.leb_le. exact Hu2.
+        - destruct hs; [|reflexivity]. cbn [negb orb]. rewrite (Hs eq_refl).
+          apply scope_ok_holds; intros q; apply Hcnt. }
+      rewrite Hb. eexists. split; [reflexivity|].
+      pose proof (outcomes_held _ _ _ _ _ _ _ Ho) as [Hh1 Hh2]. cbn [b_held b_nslot] in Hh1, Hh2.
+      constructor; cbn; [exact Hl | exact Hnd | exact Hn | | | | ].
+      + intros p Hp. apply canon_know_mem. exact Hp.
+      + intros Hhs. rewrite Hhs. reflexivity.
+      + rewrite Hh, Hns. symmetry. exact Hh1.
+      + rewrite Hns. symmetry. exact Hh2.
   Qed.
 
   Theorem mon_accepts_trace : forall U hs c ops s m i,
